@@ -372,7 +372,7 @@ def brokerVerdicts (pre : Server) (ws : List String) (core flags : String) : Lis
           c13a ++ c35
     | ["bk.tick", "wills", d] =>
       -- C16: a delayed will whose delay has elapsed is published — whether or not the session still exists
-      let dt : Int := (d.toNat?.getD 0 : Nat)
+      let dt : Int := NOW + ((d.toNat?.getD 0 : Nat) : Int)   -- the tick's virtual time, as the model step gets it
       let due := pre.willDelayed.flatMap fun (cid, m) =>
         if dt > m.expiry && !m.payload.isEmpty then
           (publishVerdicts pre io cid m.topic m.payload (min m.qos pre.caps.maximumQos) (aclOk pre cid m.topic true) none [] "F17a").map
